@@ -48,11 +48,16 @@ def skip(part):
 
 
 # ------------------------------------------------------------------------------ worlds
+QUICK_SKIP = ("refl_cyc_big", "array221_rot")     # large library worlds replayed in the thorough tier only
+
+
 def make_worlds(ctx, nrandom, big=False):
     d = ctx.path("worlds")
     os.makedirs(d, exist_ok=True)
     files = []
     for w in W.library():
+        if ctx.quick and w["name"] in QUICK_SKIP:
+            continue
         files.append(W.write_world(w, d))
     for i in range(nrandom):
         files.append(W.write_world(W.random_world(ctx.seed + i, big=big and i % 4 == 0), d))
@@ -183,11 +188,19 @@ def replay(ctx, files, mode, prefixes, explore_bound=0, maxcalls=400000, nwalks=
         rcs = list(ex.map(run, jobs))
     tj = []
     for (wf, name, kind, args), (rc, err) in zip(jobs, rcs):
-        if rc not in (0,):
-            # exit 5 = exception while building / driving (harness fault unless the trace says otherwise)
+        if rc != 0:
             if rc == 124:
                 ctx.violation("vnav %s on world %s timed out (navigator does not terminate?)" % (kind, name),
                               tags={"clause": "C03.ExitsWorld", "world": name}, files=[wf])
+                tj.append(None)
+                continue
+            if rc < 0 or rc in (134, 139) or (rc == 5 and _has_abort(args[-1])):
+                # the code under test crashed (signal) or threw while navigating (Abort record): the
+                # harness only issues protocol-legal calls, so this is the navigator's failure
+                ctx.violation("OrangeTrackView crashed / threw during %s on lattice world '%s' (vnav exit %d); last "
+                              "operations:\n  %s\n%s" % (kind, name, rc,
+                                                         "\n  ".join(brief(x) for x in _tail_records(args[-1], 6)), err),
+                              tags={"clause": "C03.Abort", "world": name}, files=[wf, args[-1]])
                 tj.append(None)
                 continue
             raise vlib.Broken("vnav %s on %s failed (exit %d): %s" % (kind, name, rc, err))
@@ -279,6 +292,15 @@ def _op_only(r):
     return keep
 
 
+def _has_abort(trace):
+    try:
+        with open(trace, "rb") as fh:
+            fh.seek(max(0, os.path.getsize(trace) - 400))
+            return b'"Abort"' in fh.read()
+    except OSError:
+        return False
+
+
 def _closed(trace):
     try:
         with open(trace, "rb") as fh:
@@ -304,7 +326,12 @@ def _tail_records(trace, n):
         with open(trace, "rb") as fh:
             fh.seek(max(0, os.path.getsize(trace) - 600 * (n + 2)))
             lines = fh.read().decode(errors="replace").splitlines()[1:]
-        recs = [json.loads(x) for x in lines if x.startswith("{")]
+        recs = []
+        for x in lines:
+            try:
+                recs.append(json.loads(x))
+            except ValueError:
+                pass
         return [r for r in recs if r.get("e") not in ("Close", "Stats", "World")][-n:]
     except (OSError, ValueError):
         return []
@@ -340,16 +367,24 @@ def fixtures(ctx, prefixes, nrays, nwalks, nprobes, maxpar=8, nshards=6):
             continue
         usable.append(f)
     n = max(1, len(usable))
-    per = lambda tot: max(1, (tot + n - 1) // n)
+    per = lambda tot: max(1, (tot + n - 1) // n) if tot else 0
+    boost = {}
     jobs = []
     for i, f in enumerate(usable):
+        # the feature of finding F-NAV-2 (a daughter held by a volume whose logic is a union) gets 8x the
+        # share so that the named deviation is exercised, not just tolerated
+        boost[f] = 8 if _union_boundary_feature(json.load(open(f))) else 1
         # the two geocel/orange duplicates get different seeds
         base = "%02d_%s" % (i, os.path.basename(f).replace(".org.json", ""))
         jobs.append((f, base, ctx.path(base + ".raw.ndjson"), ctx.path(base + ".ann.ndjson")))
 
     def run(job):
         f, base, raw, ann = job
-        r = _run_vnav(["fixture", f, ctx.seed + 17 * (jobs.index(job) + 1), per(nrays), per(nwalks), per(nprobes), raw], 1200)
+        focus = raw.replace(".raw.ndjson", ".focus.json")
+        with open(focus, "w") as fh:
+            json.dump(_focus_boxes(json.load(open(f))), fh)
+        r = _run_vnav(["fixture", f, ctx.seed + 17 * (jobs.index(job) + 1), boost[f] * per(nrays), boost[f] * per(nwalks),
+                       per(nprobes), raw, focus], 1200)
         if r.returncode != 0:
             return ("harness", r.returncode, (r.stderr or "")[-1500:])
         a = subprocess.run([VT_PY, os.path.join(vlib.ROOT, "tools", "navfacts.py"), f, raw, ann],
@@ -373,8 +408,8 @@ def fixtures(ctx, prefixes, nrays, nwalks, nprobes, maxpar=8, nshards=6):
             if rc == 124:
                 ctx.violation("vnav fixture on %s timed out" % f, tags={"clause": "C03.ExitsWorld", "fixture": os.path.basename(f)})
                 continue
-            if not _closed(raw):
-                # crash of the navigator inside the harness: the trace has no Close record
+            if rc < 0 or rc in (134, 139) or (rc == 5 and _has_abort(raw)):
+                # crash of the navigator inside the harness (signal / exception while navigating)
                 ctx.violation("vnav crashed on fixture %s (exit %d): %s" % (f, rc, info),
                               tags={"clause": "C03.Abort", "fixture": os.path.basename(f)}, files=[raw])
                 continue
@@ -430,10 +465,14 @@ def fixtures(ctx, prefixes, nrays, nwalks, nprobes, maxpar=8, nshards=6):
             job, rel = where(v["first"])
             fx = os.path.basename(job[0]) if job else "?"
             if any(clause.startswith(p) for p in prefixes):
+                tags = {"clause": clause, "fixture": fx}
+                feat = _fixture_feature(job[2], rel) if job else ""
+                if feat:
+                    tags["feature"] = feat
                 ctx.violation("clause %s violated on fixture %s (%d hits in shard %d; first at record %d of %s)\n%s"
                               % (clause, fx, v["n"], gi, rel, os.path.basename(job[3]) if job else "?",
                                  _context(job[2], job[3], rel) if job else ""),
-                              tags={"clause": clause, "fixture": fx}, files=[job[2], job[3]] if job else [path])
+                              tags=tags, files=[job[2], job[3]] if job else [path])
             else:
                 tot["other_clauses"].add(clause)
         devs = summ["dev"] if isinstance(summ["dev"], dict) else {}
@@ -450,6 +489,70 @@ def fixtures(ctx, prefixes, nrays, nwalks, nprobes, maxpar=8, nshards=6):
             samples.append({"fixture": os.path.basename(g[0][0]), "raw_records": recs[1:6]})
     tot["other_clauses"] = sorted(tot["other_clauses"])
     return tot, samples
+
+
+def _focus_boxes(j, maxboxes=40):
+    """Bounding boxes (global frame) of the volumes of universe 0 and of its daughters' volumes, as
+    far as the input states them: start points are concentrated there so that small features
+    (daughter universes a few units wide in a world hundreds wide) are actually visited."""
+    us = j.get("universes", [])
+    out = []
+
+    def finite(b):
+        return b and all(abs(x) < 1e8 for x in b[0] + b[1]) and all(b[1][k] > b[0][k] for k in range(3))
+
+    def xform(b, tr):
+        if not tr:
+            return b
+        if len(tr) == 3:
+            return [[b[0][k] + tr[k] for k in range(3)], [b[1][k] + tr[k] for k in range(3)]]
+        R, t = [tr[0:3], tr[3:6], tr[6:9]], tr[9:12]
+        cs = [[(b[i][0], b[jj][1], b[kk][2])] for i in (0, 1) for jj in (0, 1) for kk in (0, 1)]
+        pts = [[sum(R[r][c] * p[0][c] for c in range(3)) + t[r] for r in range(3)] for p in cs]
+        return [[min(p[k] for p in pts) for k in range(3)], [max(p[k] for p in pts) for k in range(3)]]
+
+    def walk(ui, tr, depth):
+        if ui >= len(us) or depth > 2:
+            return
+        u = us[ui]
+        vols = u.get("volumes") or u.get("cells") or []
+        for v in vols:
+            b = v.get("bbox") if isinstance(v, dict) else None
+            if finite(b):
+                out.append(xform(b, tr))
+        ds = u.get("daughters") or []
+        trs = u.get("transforms")
+        if trs is None and u.get("translations"):
+            fl = u["translations"]
+            trs = [fl[3 * i:3 * i + 3] for i in range(len(fl) // 3)]
+        if tr is None or not tr:
+            for i, d in enumerate(ds[:12]):
+                if isinstance(d, int):
+                    walk(d, (trs[i] if trs and i < len(trs) else None) or [0, 0, 0], depth + 1)
+    if us:
+        walk(0, None, 0)
+    return out[:maxboxes]
+
+
+def _fixture_feature(raw, rel):
+    """F-NAV-1 signature in a fixture history (same rule as classify())."""
+    try:
+        rr = vlib.read_ndjson(raw)
+    except OSError:
+        return ""
+    k = rel - 1
+    while k > 0 and rr[k].get("e") != "Init":
+        k -= 1
+    return classify(rr[k:rel])
+
+
+def _union_boundary_feature(j):
+    for u in j.get("universes", []):
+        vols = u.get("volumes") or u.get("cells") or []
+        for pc in (u.get("parent_cells") or u.get("parent_volumes") or []):
+            if isinstance(pc, int) and pc < len(vols) and "|" in str(vols[pc].get("logic", "")):
+                return True
+    return False
 
 
 def _duplicate_surface(j):
